@@ -55,5 +55,5 @@ static void prop(Tape &t, Ctx &c) {
     if (rc >= 0 || deep) c.nontrivial(fmt("p12:%d:%d:%llx", rc, (int) (sel & 63), (unsigned long long) shape));
     if (rc >= 0) c.sample(fmt("pkcs12 api=%s len=%zu ipass=%s mpass=%s rc=%d certs=%d keytype=%d", (sel & 1) ? "matrixSslLoadPkcs12Mem" : "psPkcs12ParseMem", in.n, ipass, mpass ? mpass : "(same)", rc, ncerts, ktype));
 }
-VF_TARGET("C09.pkcs12", prop, 4096, 30)
+VF_TARGET("C09.pkcs12", prop, 4096, 45)
 namespace vf { void vf_global_init(int, char **) { matrixSslOpen(); } }
